@@ -348,6 +348,57 @@ fn confirm_crash(sim: &str, v: &Value) -> Option<Result<bool, String>> {
 }
 
 // ---------------------------------------------------------------------------------------------
+// hang hunting: a run the watchdog had to abandon is a finding if it hangs again, alone
+
+/// A scenario "hangs" when a fresh process executing it alone reports that its watchdog had to
+/// abandon the run (25 s; on the unchanged tree no scenario takes a second).
+fn hangs_alone(sim: &str, scenario: &Value) -> bool {
+    match proc::call(&["single", sim], scenario) {
+        Ok(out) => out["harness_error"].as_str().is_some_and(|h| h.contains(crate::run::WATCHDOG)),
+        Err(_) => false,
+    }
+}
+
+/// Code under test that spins or blocks on something the simulated scheduler does not own (a
+/// flag in an atomic, a std lock of its own) never reaches a scheduling point again: no task is
+/// "blocked", the run simply does not end. Workers abandon such a run after 25 s and report it as
+/// a harness error. Here every abandoned scenario (at most two per check) is executed alone in a
+/// fresh process, twice; if it is abandoned both times it is reported as a violation of class
+/// `hang` with that scenario as its replay, and the harness errors it caused are dropped.
+fn hunt_hangs(sim: &str, harness_errors: &mut Vec<Value>, confirmed: &mut Vec<Value>) {
+    let abandoned: Vec<Value> = harness_errors
+        .iter()
+        .filter(|h| h["what"].as_str().is_some_and(|w| w.contains(crate::run::WATCHDOG)) && h["scenario"].is_object())
+        .map(|h| h["scenario"].clone())
+        .collect();
+    let mut found = false;
+    for sc in abandoned.into_iter().take(2) {
+        if hangs_alone(sim, &sc) && hangs_alone(sim, &sc) {
+            found = true;
+            confirmed.push(json!({
+                "sim": sim, "class": "hang", "scenario": sc,
+                "subject_id": format!("hang:{:.300}", sc.to_string()),
+                "detail": format!("the run did not finish: no task is blocked on a lock the scheduler owns, yet the execution never reaches its end (spinning or blocking on state the scheduler does not see); executed alone in a fresh process it was abandoned after {} s, twice", crate::run::RUN_TIMEOUT_S),
+            }));
+        }
+    }
+    if found {
+        harness_errors.retain(|h| {
+            let w = h["what"].as_str().unwrap_or("");
+            !(w.contains(crate::run::WATCHDOG) || w.contains("abandoned runs"))
+        });
+    }
+}
+
+/// A "hang" finding is confirmed when the lone process is abandoned by its watchdog again.
+fn confirm_hang(sim: &str, v: &Value) -> Option<Result<bool, String>> {
+    if v["class"].as_str() != Some("hang") {
+        return None;
+    }
+    Some(Ok(hangs_alone(sim, &v["scenario"])))
+}
+
+// ---------------------------------------------------------------------------------------------
 // hashsim-based properties (C05, C15)
 
 /// Re-runs the explicit scenarios of a candidate in fresh processes; true iff it fails the same way.
@@ -1057,6 +1108,7 @@ pub fn check_cellsim(property: &str, tier: &str) -> i32 {
     } else {
         json!({"status": "thorough tier of C16 only"})
     };
+    hunt_hangs("cellsim", &mut harness_errors, &mut confirmed);
     let wall = t0.elapsed().as_secs_f64();
     let (rule, distinct) = if property == "C13" {
         (
@@ -1116,6 +1168,9 @@ pub fn check_cellsim(property: &str, tier: &str) -> i32 {
 
 pub fn confirm_any(sim: &str, v: &Value) -> Result<bool, String> {
     if let Some(r) = confirm_crash(sim, v) {
+        return r;
+    }
+    if let Some(r) = confirm_hang(sim, v) {
         return r;
     }
     match sim {
@@ -1251,6 +1306,7 @@ pub fn check_ossim(property: &str, tier: &str) -> i32 {
             Err(e) => harness_errors.push(json!({"what": "replay failed", "error": e})),
         }
     }
+    hunt_hangs("ossim", &mut harness_errors, &mut confirmed);
     let wall = t0.elapsed().as_secs_f64();
     let fault_total: u64 = faults.values().sum();
     let (level, rule, exhaustive) = if property == "C03" {
@@ -1406,6 +1462,7 @@ pub fn check_replsim(property: &str, tier: &str) -> i32 {
             Err(e) => harness_errors.push(json!({"what": "replay failed", "error": e})),
         }
     }
+    hunt_hangs("replsim", &mut harness_errors, &mut confirmed);
     let wall = t0.elapsed().as_secs_f64();
     let coverage = json!({
         "evaluations": n,
